@@ -33,6 +33,29 @@ def probe_consumer_scanned_early(ctx, known):
     finally: shutil.rmtree(d, ignore_errors=True)
     return n
 
+def probe_produced_forms(ctx):
+    """a dyndep file PRODUCED during the build, in every position the manifest allows for it among its producer's outputs (only output, second
+    explicit output, implicit output `build stamp | dd: gen`): loaded when the producer finishes, the discovered input is built first"""
+    import os, subprocess, tempfile, shutil
+    import vlib
+    ninja = os.path.join(vlib.build_impl('plain'), 'ninja'); n = 0
+    d = tempfile.mkdtemp(prefix='verif-c11-', dir='/dev/shm')
+    try:
+        for form, outs in (('only output', 'dd'), ('second explicit output', 'stamp dd'), ('implicit output', 'stamp | dd'), ('first of two', 'dd stamp'), ('implicit, two explicit', 's1 s2 | dd')):
+            for f in os.listdir(d): os.unlink(os.path.join(d, f))
+            touch = ' '.join(o for o in outs.replace('|', ' ').split() if o != 'dd')
+            open(d + '/build.ninja', 'w').write('rule gen\n  command = cp dd.in dd' + (' && touch ' + touch if touch else '') + '\nbuild %s: gen dd.in\n' % outs +
+                                                'rule mk\n  command = echo X > $out\nbuild x: mk\nrule cat\n  command = cat x > $out\nbuild a: cat || dd\n  dyndep = dd\n')
+            open(d + '/dd.in', 'w').write('ninja_dyndep_version = 1\nbuild a: dyndep | x\n')
+            p = subprocess.run([ninja, '-C', d, '-j1', 'a'], stdout=subprocess.PIPE, stderr=subprocess.STDOUT, timeout=60); n += 1
+            a = open(d + '/a').read() if os.path.exists(d + '/a') else None
+            if p.returncode != 0 or a != 'X\n':
+                ctx.violation('dyndep-produced-form', 'real binary -j1 a\n' + open(d + '/build.ninja').read() + '# dd.in\n' + open(d + '/dd.in').read(),
+                              'dyndep file produced as %s of its generator: ninja exits %d, a = %r (the manifest with `build a: cat | x || dd` builds x first and a = \'X\\n\'): %s'
+                              % (form, p.returncode, a, p.stdout.decode(errors='replace')[-200:].replace('\n', ' | ')))
+    finally: shutil.rmtree(d, ignore_errors=True)
+    return n
+
 def run(ctx):
     rnd = random.Random(ctx.seed * 11 + 3)
     n = 700 if ctx.quick() else 6000
@@ -49,7 +72,7 @@ def run(ctx):
             pairs.append((a, a.transformed('C11_nr%d_inl' % i, engine.inline_dyndep)))
         inv = [h for h in (ec.gen_dyndep_invalid(rnd, 'C11_i%d' % i) for i in range(2 * n)) if h]
     known = {k.get('id') for k in ctx.known_list if k.get('property') == 'C11'}
-    if not ctx.replay: probe_consumer_scanned_early(ctx, known)
+    if not ctx.replay: probe_consumer_scanned_early(ctx, known); probe_produced_forms(ctx)
     hists = [x for p in pairs for x in p] + inv
     rc, tr, err, out = ec.run_hists(hists)
     for hh, crc, cerr in getattr(ec.run_hists, 'crashes', []):
